@@ -56,3 +56,22 @@ NOT_APPLICABLE = {}
 
 # hook commits in /repo (guard: cargo feature `verif`)
 HOOK_COMMITS = []
+
+PROPS["C04"] = dict(
+    title="Certificates are accepted exactly when genuinely backed by a quorum",
+    level="exploration",
+    technique="runtime oracle: generator-owned ground truth (who signed what) vs. verdicts of verify()/add() on generated certificates and every single-field corruption",
+    explanation="For generated committees (1-8 validators, six weight families, random genesis/epoch) the harness builds commit and "
+    "timeout certificates, final blocks, proposals, new-view and timeout messages from real BLS signatures, for signer subsets "
+    "exactly at / just below / above the quorum, assembles them incrementally through add() with interleaved bad adds, applies "
+    "every single-field corruption of a table (bitmap bit/length, view, epoch, genesis, vote content, nested certificate, "
+    "signature replaced/duplicated/by outsider, overlapping or empty signer groups, payload), and compares accept/reject of the "
+    "real code with the verdict derived from the ground truth, both ways. Panics are caught per call.",
+    assumptions=[
+        "BLS (blst) is trusted: a signature verifies iff it was produced by the matching key over the same bytes",
+        "held on the generated committees/corruptions only",
+    ],
+    stages=[dict(name="release", flavour="release", **E2)],
+    floors={"quick": {"boundary_exactly_reaching_quorum": 200, "boundary_just_below_quorum": 200, "overlap_corruptions": 50, "incremental_qc_reached_quorum": 200, "CommitQC_genuine": 500, "TimeoutQC_genuine": 500},
+            "thorough": {"boundary_exactly_reaching_quorum": 2000}},
+)
